@@ -28,7 +28,11 @@ impl Violation {
     }
     /// Structural signature used for known-finding matching and minimisation.
     pub fn signature(&self) -> String {
-        format!("{}|{}", self.prop, self.class)
+        // a leading "[tag]" of the detail names the call site / root cause and is part of the signature
+        match self.detail.strip_prefix('[').and_then(|r| r.split_once(']')) {
+            Some((tag, _)) if !tag.is_empty() => format!("{}|{}|{}", self.prop, self.class, tag),
+            _ => format!("{}|{}", self.prop, self.class),
+        }
     }
 }
 
@@ -140,6 +144,8 @@ pub struct Exec<A: Ar> {
     /// durable image of a file-backed arena at the last writable close
     pub durable: Option<Durable>,
     pub remove_on_drop: bool,
+    /// when set, only violations of these properties are recorded (others are ignored)
+    pub only_props: Option<Vec<&'static str>>,
 }
 
 #[derive(Clone, Debug)]
@@ -199,6 +205,7 @@ impl<A: Ar> Exec<A> {
             expect_refs_extra: (0, 0),
             durable: None,
             remove_on_drop: false,
+            only_props: None,
         };
         e.ro = e.a().read_only();
         e.data_offset = e.a().data_offset();
@@ -226,6 +233,7 @@ impl<A: Ar> Exec<A> {
         let words = a.vwords();
         let spurious = self.opts.spurious;
         let crash = self.opts.crash_snaps;
+        let self_step = self.step;
         ST.with(|st| {
             let mut st = st.borrow_mut();
             let keep_steps = st.total_steps;
@@ -248,7 +256,7 @@ impl<A: Ar> Exec<A> {
             }
             st.spurious = match (keep_rng, spurious) {
                 (Some(r), Some(_)) => Some(r),
-                (None, Some((seed, n, d))) => Some((crate::rng::Rng::new(seed), n, d)),
+                (None, Some((seed, n, d))) => Some((crate::rng::Rng::new(seed ^ (self_step as u64).wrapping_mul(0x9E37_79B9_7F4A_7C15)), n, d)),
                 _ => None,
             };
             if let Some(every) = crash {
@@ -278,6 +286,11 @@ impl<A: Ar> Exec<A> {
     }
 
     fn v(&mut self, prop: &'static str, class: &'static str, detail: String) {
+        if let Some(only) = &self.only_props {
+            if !only.contains(&prop) {
+                return;
+            }
+        }
         if self.viols.len() < 16 {
             self.viols.push(Violation { prop, class, detail, op: self.step });
         }
@@ -291,6 +304,15 @@ impl<A: Ar> Exec<A> {
     }
 
     pub fn obs(&self, result: String, meta: Option<(usize, usize, usize, usize)>, ret: Option<u64>) -> Obs {
+        // observation calls of the harness are not part of the history: no steps, no crash points
+        let m = hook::mode();
+        hook::set_mode(Mode::Off);
+        let o = self.obs_inner(result, meta, ret);
+        hook::set_mode(m);
+        o
+    }
+
+    fn obs_inner(&self, result: String, meta: Option<(usize, usize, usize, usize)>, ret: Option<u64>) -> Obs {
         let a = self.a();
         let s = a.snap();
         Obs {
@@ -361,6 +383,13 @@ impl<A: Ar> Exec<A> {
 
     /// Oracles evaluated after every step.
     pub fn global_checks(&mut self) {
+        let m = hook::mode();
+        hook::set_mode(Mode::Off);
+        self.global_checks_inner();
+        hook::set_mode(m);
+    }
+
+    fn global_checks_inner(&mut self) {
         let a = self.a();
         let s = a.snap();
         let mem = self.mem();
@@ -778,6 +807,11 @@ impl<A: Ar> Exec<A> {
                     return self.obs("noop".into(), None, None);
                 }
                 self.kill_handles_above(0);
+                // zero-sized handles occupy nothing but owned ones embed an arena value: release them too
+                while let Some(mut l) = self.live.pop() {
+                    l.h.0.detach_();
+                    drop(l);
+                }
                 self.dead_zones.clear();
                 let a = self.a();
                 let pre = a.snap();
